@@ -6,6 +6,7 @@
   transcription of `BorrowingParamVisitor`.  Graphs, parameter lists and lifetime counts are unbounded.
 -/
 import DiplomatModel.Lemmas.Lifetimes
+import DiplomatModel.Lemmas.JsArena
 namespace DiplomatModel.Props.C04
 open DiplomatModel.Lifetimes
 
@@ -156,5 +157,25 @@ theorem nested_getter_exact (fields : List (String × List (Option Nat))) (x : N
 
 example : nestedGetter [("pair", [some 1, some 0]), ("other", [some 0, some 0]), ("fixed", [none, some 1])] 0
     = [("pair", 1), ("other", 0), ("other", 1)] := by decide
+
+open DiplomatModel.JsArena in
+/-- **JS runtime: the buffer's owner is reachable from every edge array it was created for.**  The arena
+    `CleanupArena.createWith(...edgeArrays)` returns is on each (non-null) array given — so whoever holds that array
+    keeps the wasm buffer alive — in whatever state earlier calls left the arrays … -/
+theorem arena_on_every_edge_array (s : St) (call : List (Option Nat)) (i : Nat)
+    (hi : some i ∈ call) (hl : i < s.arrays.length) :
+    ∃ l, (createWith s call).1.arrays[i]? = some l ∧ (createWith s call).2 ∈ l := by
+  simpa [createWith] using pushAll_mem s.arrays s.next call i hi hl
+
+open DiplomatModel.JsArena in
+/-- … and no later call takes it off again. -/
+theorem arena_stays_on_edge_array (s : St) (call : List (Option Nat)) (later : List (List (Option Nat))) (i : Nat)
+    (hi : some i ∈ call) (hl : i < s.arrays.length) :
+    ∃ l, (runCalls (createWith s call).1 later).arrays[i]? = some l ∧ (createWith s call).2 ∈ l :=
+  runCalls_keeps _ later i _ (arena_on_every_edge_array s call i hi hl)
+
+open DiplomatModel.JsArena in
+/-- two slice fields of one struct, the second one's list of arrays starting like the first one's -/
+example : (runCalls ⟨[[], []], 0⟩ [[some 0], [some 0, some 1]]).arrays = [[0, 1], [1]] := by decide
 
 end DiplomatModel.Props.C04
